@@ -43,14 +43,12 @@ package slicesext
 //@ func Map(s, f) (r)
 //@   property C02 C08
 //@   callback pure f
-//@   modifies heap
 //@   ensures len(r) == len(s) && (forall i int :: 0 <= i && i < len(s) ==> r[i] == f(s[i]))
 //@   loop 0 invariant len(sm) == len(s) && (forall j int :: 0 <= j && j < $i ==> sm[j] == f(s[j]))
 //
 //@ func MapError(s, f) (r, err)
 //@   property C02 C08
 //@   callback pure f
-//@   modifies heap
 //@   ensures elementwise: err == nil ==> len(r) == len(s) && (forall i int :: 0 <= i && i < len(s) ==> second(f(s[i])) == nil && r[i] == first(f(s[i])))
 //@   ensures first-error: err != nil ==> (exists i int :: 0 <= i && i < len(s) && second(f(s[i])) == err)
 //@   loop 0 invariant len(sm) == len(s) && (forall j int :: 0 <= j && j < $i ==> second(f(s[j])) == nil && sm[j] == first(f(s[j])))
